@@ -89,8 +89,8 @@ theorem tie_invKrovakVals_real (c : KrovakC ℝ) (x y : ℝ) :
        let u := Gen.krovak_inverse_u_1 c.ad ss d
        let deltav := Gen.krovak_inverse_deltav_1 ss d u
        let lonv := Gen.krovak_inverse_x_2 s deltav c.alfa
-       let (latv, iter) := krovakLatLoop c u 15 (Gen.krovak_inverse_fi1_1 u) y 0
-       (lonv, if iter ≥ 15 then none else some latv)) := by
+       let (latv, iter) := krovakLatLoop c u Gen.krovak_inverse_cond_lt_1_rnat (Gen.krovak_inverse_fi1_1 u) y Gen.krovak_inverse_natiter_1
+       (lonv, if iter ≥ Gen.krovak_inverse_cond_ge_1_rnat then none else some latv)) := by
   simp only [krovak_inverse_s_real]; rfl
 
 /-- datum.go's `genau`, `genau2` over ℝ (`1e-12` vs the model's `1.0e-12`, `genau*genau` vs `1.0e-24`) -/
